@@ -197,6 +197,13 @@ theorem take_index_bound_counterexample :
 theorem repeat_constant_axis_counterexample :
     some [2, 3] ≠ repeatScalar [2, 3] 2 (some 2) ∧ some [2, 3] ≠ repeatList [2, 3] [1, 2] (some 1) := by decide
 
+/-- known finding C09.concatenate-clipped-operand: `tuple_at` reads the extent 3 of the joining axis of a clipped shape
+    `(3,2)` through the type of the LAST entry (bound 2): the first operand is taken to have 2 rows, and row 2 of the
+    result `(5,2)` comes from the wrong operand -/
+theorem concatenate_clipped_extent_counterexample :
+    vConcatenate [3, 2] [2, 2] (some 0) = some ([5, 2], [0, 1, 2, 3, 4, 5, 1000, 1001, 1002, 1003]) ∧
+    (Clipped.mk' 0 2 3).val ≠ 3 := by decide
+
 /-! ### the reference refuses every member of the refusal classes of the kind matrix -/
 
 /-- all-positive target: accepted exactly when the element counts agree, and then the answer is the target itself.
